@@ -189,7 +189,12 @@ func cWsItem(i WsItem) string {
 func cWs(w Ws) string {
 	d := "None"
 	if w.Desc != nil {
-		d = "(Some " + cList(*w.Desc, cField) + ")"
+		d = "(Some " + cList(*w.Desc, func(x DescItem) string {
+			if x.Ref != nil {
+				return fmt.Sprintf("(DRef %s %s %s)", cStr(x.Ref.Name), cQRefs(x.Ref.Refs), cBool(x.Ref.NotNull))
+			}
+			return "(DField " + cField(x.Field) + ")"
+		}) + ")"
 	}
 	return fmt.Sprintf("(Ws %s %s %s %s %s)", cStr(w.Name), cBool(w.Abstract), cQRefs(w.Inh), d, cList(w.Items, cWsItem))
 }
